@@ -91,7 +91,9 @@ class Version(object):
         else:
             version = f"{self.upstream}"
 
-        if self.revision not in (None, "0"):
+        # a "0" revision is not significant, but must be kept when the upstream
+        # contains an hyphen that would otherwise be taken as starting the revision
+        if self.revision not in (None, "0") or "-" in (self.upstream or ""):
             version += f"-{self.revision}"
 
         return version
